@@ -16,7 +16,7 @@ func init() {
 		Run: runC08,
 		Explanation: "Provenance and discipline rules over the NETCONF driver, valid for every history because they constrain every path: id-allocation — the only writers of the message-id counter are the constructor (constant 101) and buildPayload, which copies the counter into the message and then increments it by exactly one; every RPC entry point reaches sendRPC with a message built by exactly one buildPayload call on each path (so ids are unique and strictly increasing from 101). " +
 			"own-id — sendRPC serialises, writes and polls the store for the id of the same message value; getMessage looks up and deletes exactly the key it was asked for; the reader files a reply under the id extracted from that very buffer and clears the buffer only after filing it. store-locked — every access to the message store and the subscription store holds its mutex. " +
-			"NOT decided: late replies after a timeout, echo interleaving, loss under arbitrary read segmentation (histories over run-time data and regular expressions).",
+			"NOT decided: late replies after a timeout, echo interleaving beyond the keep-the-rest rule, loss under arbitrary read segmentation (histories over run-time data and regular expressions).",
 		Assumptions: []string{"RPC methods of one driver are not called concurrently (the property does not quantify over concurrent callers)", "the message-id regular expression extracts the id of the message it is applied to"},
 		Mutants: []Mutant{
 			{ID: "C08-poll-previous-id", Desc: "sendRPC polls for the previous message id", Rule: "C08/own-id",
@@ -29,6 +29,8 @@ func init() {
 				Edits: []Edit{{File: "driver/netconf/driver.go", Old: "\tdelete(d.messages, i)\n", New: "\tfor k := range d.messages {\n\t\tdelete(d.messages, k)\n\t}\n"}}},
 			{ID: "C08-store-wrong-key", Desc: "reader files replies under the subscription id", Rule: "C08/own-id",
 				Edits: []Edit{{File: "driver/netconf/read.go", Old: "d.storeMessage(messageID, b)", New: "d.storeMessage(messageID+subID, b)"}}},
+			{ID: "C08-echo-keeps-last-piece", Desc: "reader keeps only what follows the last delimiter after an echo", Rule: "C08/echo-keeps-rest",
+				Edits: []Edit{{File: "driver/netconf/read.go", Old: "ss = patterns.v1Dot1Delim.Split(string(b), endRPCSplitLen)\n\t\t\t\t}\n\n\t\t\t\tb = []byte(ss[1])", New: "ss = patterns.v1Dot1Delim.Split(string(b), -1)\n\t\t\t\t}\n\n\t\t\t\tb = []byte(ss[len(ss)-1])"}}},
 			{ID: "C08-get-unlocked", Desc: "getMessage without the mutex", Rule: "C08/store-locked",
 				Edits: []Edit{{File: "driver/netconf/driver.go", Old: "func (d *Driver) getMessage(i int) []byte {\n\td.messagesLock.Lock()\n\tdefer d.messagesLock.Unlock()\n", New: "func (d *Driver) getMessage(i int) []byte {\n"}}},
 			{ID: "C08-double-build", Desc: "Lock builds its message twice (id skipped, first id never answered)", Rule: "C08/id-allocation",
@@ -42,6 +44,7 @@ func init() {
 func runC08(c *Ctx, r *Report) {
 	r.Rule("C08/id-allocation", "the message-id counter is written only by the constructor (101) and by buildPayload (copy, then +1); every RPC entry point builds exactly one message per call", 14)
 	r.Rule("C08/own-id", "sendRPC polls for the id of the message it serialised; getMessage looks up and deletes exactly its key; the reader files a reply under the id extracted from that buffer before clearing it", 4)
+	r.Rule("C08/echo-keeps-rest", "on recognising its echoed request the reader keeps everything after the first delimiter (split limit 2, element 1)", 1)
 	r.Rule("C08/store-locked", "every access to the message and subscription stores holds its mutex", 6)
 
 	idF := c.LookupField("driver/netconf", "Driver", "messageID")
@@ -58,6 +61,7 @@ func runC08(c *Ctx, r *Report) {
 		r.Anchor("C08/id-allocation", "netconf.Driver.{messageID,messages,subscriptions} / message.MessageID / buildPayload / sendRPC / NewDriver / getMessage / storeMessage / read")
 		return
 	}
+	checkEchoKeepsRest(c, r, read)
 	initID := c.LookupConst("driver/netconf", "initialMessageID")
 
 	// ---- writers of the counter
